@@ -45,6 +45,11 @@ def run(R, ctx):
     R.rule('R15.3', 'one funnel: unchanged bytes reach the mode-free sink')
     write_mode_tables(R, ctx)
     funnel(R, ctx)
+    # buffered modes hold bytes back that Direct has already written: the contents agree only if the last step of every write mode's
+    # shutdown/flush chain flushes the active writer, with or without rotation (tables shared with R04.1)
+    R.rule('R15.5', 'shutdown/flush tables of the file writer: the active writer is flushed in every mode and configuration (shared with R04.1)')
+    import c04 as _c04
+    _c04.file_writer_level(_Map(R, {'R04.1': 'R15.5'}), ctx)
     if ctx.has('async'):
         payloads(R, ctx)
         # pooled buffers: what the async arm formats into must be empty - a buffer returned to the pool uncleared (e.g. a processed
